@@ -311,6 +311,66 @@ func enumerate(shard, nshards int, yield func(Case)) {
 			}
 		}
 	}
+	enumerateRW(emit)
+}
+
+// rwTable builds the schema and body of one cell of the readOnly / writeOnly truth table: each of
+// two properties is plain, readOnly or writeOnly; listed under required or not; and absent, present
+// with a valid value or present with an invalid one. nest puts the object at the top, under a
+// property, or in an array.
+func rwTable(cell [2]int, nest int) (schema, body string) {
+	props, obj := M{}, M{}
+	var req []any
+	for i, name := range []string{"p", "q"} {
+		x := cell[i]
+		flag, required, presence := x%3, (x/3)%2, x/6
+		ps := M{"type": "integer"}
+		switch flag {
+		case 1:
+			ps["readOnly"] = true
+		case 2:
+			ps["writeOnly"] = true
+		}
+		props[name] = ps
+		if required == 1 {
+			req = append(req, name)
+		}
+		switch presence {
+		case 1:
+			obj[name] = 1.0
+		case 2:
+			obj[name] = "x"
+		}
+	}
+	sc := M{"type": "object", "properties": props}
+	if len(req) > 0 {
+		sc["required"] = req
+	}
+	var bv any = obj
+	switch nest {
+	case 1:
+		sc = M{"type": "object", "properties": M{"w": sc}, "required": []any{"w"}}
+		bv = M{"w": obj}
+	case 2:
+		sc = M{"type": "array", "items": sc}
+		bv = []any{obj}
+	case 3:
+		sc = M{"allOf": []any{sc}}
+	}
+	return jv.Canon(sc), jv.Canon(bv)
+}
+
+func enumerateRW(emit func(Case)) {
+	for a := 0; a < 18; a++ {
+		for b := 0; b < 18; b++ {
+			for nest := 0; nest < 4; nest++ {
+				for _, opts := range []int{0, 4} {
+					sc, body := rwTable([2]int{a, b}, nest)
+					emit(Case{Keys: []string{"200"}, Status: 200, Method: "GET", Target: "200", HeaderKind: "none", Schema: sc, Body: body, CT: "application/json", Opts: opts})
+				}
+			}
+		}
+	}
 }
 
 func gen(t *rapid.T) Case {
@@ -356,9 +416,13 @@ func gen(t *rapid.T) Case {
 		if h.Thorough() {
 			depth = 3
 		}
-		s := schemagen.Gen(schemagen.Options{Depth: depth, ReadWrite: true}).Draw(t, "schema")
-		v := schemagen.GenValue(s, depth+1).Draw(t, "value")
-		c.Schema, c.Body = jv.Canon(s), jv.Canon(v)
+		if rapid.IntRange(0, 3).Draw(t, "rwtable") == 0 {
+			c.Schema, c.Body = rwTable([2]int{rapid.IntRange(0, 17).Draw(t, "rwp"), rapid.IntRange(0, 17).Draw(t, "rwq")}, rapid.IntRange(0, 3).Draw(t, "rwnest"))
+		} else {
+			s := schemagen.Gen(schemagen.Options{Depth: depth, ReadWrite: true}).Draw(t, "schema")
+			v := schemagen.GenValue(s, depth+1).Draw(t, "value")
+			c.Schema, c.Body = jv.Canon(s), jv.Canon(v)
+		}
 		c.CT = rapid.SampledFrom([]string{"application/json", "application/json", "application/json; charset=utf-8", "text/plain", "", "application/xml"}).Draw(t, "ct")
 		if rapid.IntRange(0, 15).Draw(t, "rawbody") == 0 {
 			c.RawBody = rapid.SampledFrom([]string{"{", "not json", "[1,"}).Draw(t, "raw")
